@@ -108,7 +108,7 @@ func runC14(e *Env) {
 	x.partServer()
 
 	// samples: one per kind first, so that the few kept ones are diverse
-	order := []string{"history", "store-expiry", "sessions", "receivers", "hostleft", "expiry", "msgsize", "msgrate", "wsconns", "iprate"}
+	order := []string{"history", "store-expiry", "sessions", "receivers", "hostleft", "expiry", "msgsize", "msgrate", "wsconns", "iprate", "rate-ws-msgs", "rate-session-creates", "rate-ws-connects"}
 	for pass := 0; pass < 2; pass++ {
 		for _, k := range order {
 			if len(x.st.samples[k]) > pass {
@@ -120,6 +120,9 @@ func runC14(e *Env) {
 	e.R.SetExtra("observed_cases", x.st.samples)
 	e.R.SetExtra("limits_observed_vs_limit", x.st.limits)
 	e.R.SetExtra("c14_counts", x.st.counts)
+	c14RateStats.mu.Lock()
+	e.R.SetExtra("rate_limiters_sliding_window", c14RateStats.m)
+	c14RateStats.mu.Unlock()
 	x.st.mu.Unlock()
 }
 
@@ -595,12 +598,12 @@ func (x *c14Run) partStoreExpiry() {
 			ss = append(ss, sess{s.JoinCode, call, ret})
 		}
 		type look struct {
-			Sess       int   `json:"sess"`
-			Start, End int64 `json:"-"`
-			Found      bool  `json:"found"`
+			Sess       int    `json:"sess"`
+			Start, End int64  `json:"-"`
+			Found      bool   `json:"found"`
 			Verdict    string `json:"verdict"`
-			RelStartUs int64 `json:"start_us_after_create_call"`
-			RelEndUs   int64 `json:"end_us_after_create_call"`
+			RelStartUs int64  `json:"start_us_after_create_call"`
+			RelEndUs   int64  `json:"end_us_after_create_call"`
 		}
 		var mu sync.Mutex
 		var looks []look
@@ -726,13 +729,14 @@ func c14Small() c14Cfg {
 }
 
 type c14Round struct {
-	ID      string `json:"id"`
-	Cfg     c14Cfg `json:"cfg"`
-	Kind    string `json:"kind"`
-	N       int    `json:"n"`
-	Prefill int    `json:"prefill,omitempty"`
-	Variant string `json:"variant,omitempty"`
-	Seed    uint64 `json:"seed"`
+	ID      string         `json:"id"`
+	Cfg     c14Cfg         `json:"cfg"`
+	Kind    string         `json:"kind"`
+	N       int            `json:"n"`
+	Prefill int            `json:"prefill,omitempty"`
+	Variant string         `json:"variant,omitempty"`
+	Seed    uint64         `json:"seed"`
+	Phases  []c14RatePhase `json:"phases,omitempty"` // rate-* rounds: the idle/burst history (c14rate.go)
 }
 
 func (r c14Round) key() string {
@@ -840,6 +844,8 @@ func c14GenRounds(e *Env) []c14Round {
 			}
 		}
 	}
+	// token-bucket limiters under idle-then-burst histories (c14rate.go)
+	out = append(out, c14GenRateRounds(e)...)
 	for i := range out {
 		out[i].ID = fmt.Sprintf("c14-%04d", i)
 	}
@@ -849,7 +855,7 @@ func c14GenRounds(e *Env) []c14Round {
 func (x *c14Run) partServer() {
 	e := x.e
 	rounds := c14GenRounds(e)
-	var sleepy, busy []c14Round
+	var sleepy, busy, rate []c14Round
 	cfgs := map[string]bool{}
 	only := os.Getenv("VERIF_C14_KINDS") // debugging aid: comma-separated round kinds
 	for _, r := range rounds {
@@ -859,6 +865,8 @@ func (x *c14Run) partServer() {
 		cfgs[r.Cfg.Name] = true
 		if r.Kind == "expiry" {
 			sleepy = append(sleepy, r)
+		} else if strings.HasPrefix(r.Kind, "rate-") {
+			rate = append(rate, r)
 		} else {
 			busy = append(busy, r)
 		}
@@ -868,6 +876,9 @@ func (x *c14Run) partServer() {
 	go func() { defer wg.Done(); vk.ParallelDo(len(sleepy), 8, func(i int) { x.runRound(sleepy[i]) }) }()
 	go func() { defer wg.Done(); vk.ParallelDo(len(busy), 5, func(i int) { x.runRound(busy[i]) }) }()
 	wg.Wait()
+	// the rate-limiter histories run after the connection bursts above, not among them: their bound is
+	// sound under any load, but the tighter a burst is the smaller an over-admission it can show
+	vk.ParallelDo(len(rate), 8, func(i int) { x.runRound(rate[i]) })
 	e.R.SetExtra("server_rounds", map[string]any{"rounds": len(rounds), "configurations": len(cfgs), "decided": x.st.get("rounds_decided")})
 	// minimum observations
 	for _, k := range []string{"sessions:burst", "receivers:burst", "wsconns:burst", "sessions:seq", "receivers:seq", "wsconns:seq", "msgsize", "msgrate", "hostleft", "expiry"} {
@@ -876,6 +887,23 @@ func (x *c14Run) partServer() {
 	e.R.Require(x.st.get("hostleft:joins_after_point") >= 20, "too few joins started after the host-left point")
 	e.R.Require(x.st.get("expiry:must_admit") >= 6 && x.st.get("expiry:must_refuse") >= 6, "expiry brackets decided too little")
 	e.R.Require(x.st.get("zero:rounds") >= 6, "too few rounds with a limit at 0")
+	// rate limiters: every limiter saw every idle class, and at least two over-bursts after a long idle
+	// period were tight enough (rate*window <= burst/2) for an over-admission of one burst to show
+	if only == "" || strings.Contains(only, "rate-") {
+		for _, kind := range []string{"rate-msgs", "rate-sess", "rate-ws"} {
+			if only != "" && !strings.Contains(","+only+",", ","+kind+",") {
+				continue
+			}
+			shapes := c14RateShapesIP
+			if kind == "rate-msgs" {
+				shapes = c14RateShapesMsgs
+			}
+			for _, sh := range shapes {
+				e.R.Require(x.st.get("rate:"+kind+":"+sh) >= 1, fmt.Sprintf("no decided %s round with history shape %s", kind, sh))
+			}
+			e.R.Require(x.st.get("rate:sharp_bursts_after_long_idle:"+kind) >= 2, fmt.Sprintf("%s: only %d of %d bursts after a long idle period were tight enough to be sensitive", kind, x.st.get("rate:sharp_bursts_after_long_idle:"+kind), x.st.get("rate:bursts_after_long_idle:"+kind)))
+		}
+	}
 }
 
 func (x *c14Run) decided(r c14Round) {
@@ -909,6 +937,12 @@ func (x *c14Run) runRound(r c14Round) {
 		x.roundWSConns(r, srv)
 	case "iprate-ws":
 		x.roundIPRateWS(r, srv)
+	case "rate-msgs":
+		x.roundRateMsgs(r, srv)
+	case "rate-sess":
+		x.roundRateSess(r, srv)
+	case "rate-ws":
+		x.roundRateWS(r, srv)
 	case "msgsize":
 		x.roundMsgSize(r, srv)
 	case "msgrate":
@@ -1113,8 +1147,8 @@ func c14DropAll(joins []*c14Join) {
 
 type c14JoinTally struct {
 	Upgraded, RecvLimit, ConnLimit, Rate, NotFound, Other int
-	First, Last                                          int64
-	OtherText                                            string
+	First, Last                                           int64
+	OtherText                                             string
 }
 
 func c14Tally(joins []*c14Join) c14JoinTally {
@@ -1346,4 +1380,3 @@ func (x *c14Run) receiverRetry(srv *c14Server, code string) *c14Join {
 	}
 	return j
 }
-
